@@ -112,6 +112,8 @@ def prop_C11(run):
     rules_det.intelhex_address_width(run)
     rules_det.intelhex_unit_aligned(run)
     validators_agree(run)
+    # unchecked arithmetic in the binary-data formatters (an empty output underflows `byte_num - 1`, F6)
+    lim2_obligations(run, only=lambda key, f: "bitvec_format" in key and not __import__("re").search(r"format_(annotated|tcgame|addrspan)", key))
     run.rules_run += ["TAB-fmt OutputFormat variant -> formatter(constants), wrappers, panic-guarded parameter domains, divisors nonzero"]
 
 
